@@ -8,13 +8,15 @@ COQ_FILES = ["Model/IncExec.v", "Proofs/IncExec1.v", "Proofs/IncExec2.v", "Proof
 PROPS = "Props/C33.v"
 THEOREMS = ["C33_at_most_once_between_evictions", "C33_run_returns_fresh_values", "C33_memoized_values_fresh",
             "C33_execute_sees_fresh_values", "C33_evict_closure_exact", "C33_changed_flag_consistent",
-            "C33_changed_iff_computed_this_run", "C33_result_stamped_by_its_run", "C33_memoized_result_stable"]
+            "C33_changed_iff_computed_this_run", "C33_result_stamped_by_its_run", "C33_memoized_result_stable",
+            "C33_result_run_id_valid", "C33_completion_reports_changed"]
 AXIOMS_OK = []
 TRUSTED = TRUSTED_INC
 ASSUMPTIONS = ["queries are deterministic functions of their own input and of what Resolve returned, and the sequence of their "
                "Resolve calls is a function of their own input (Model/IncExec.v world); an input only changes together with "
                "an Evict of its key (event EEdit)",
-               "C33 is about queries that do not panic (hypothesis wpanic = None in every theorem); panics and cancellation are C34",
+               "C33 is about queries that do not panic (hypothesis wpanic = None in every theorem); panics and cancellation are C34; "
+               "a query that RETURNS a fatal error is covered: the model's result is the pair Value/Fatal as one opaque number",
                "Evict / Edit happen while no goroutine of an earlier Run is still executing (the dirty lock plus: a cancelled Run "
                "has no stragglers; without panics a Run never returns before its goroutines)",
                "the values theorems need an acyclic dependency function (a rank that every dependency decreases); cyclic graphs are C34"]
@@ -36,6 +38,75 @@ def alphabet(n):
         ops += [{"op": "edit", "keys": [k], "vals": [100 + 7 * k]} for k in range(n)]
         ALPH_CACHE[n] = ops
     return ALPH_CACHE[n]
+
+
+FAIL_ODD = [1, 2]     # fail spec: the query returns a fatal error of its own iff its input is odd
+
+
+def fail_alphabet(n):
+    """the alphabet of the failing-query histories: as alphabet(n), with two Edits per key: to a failing and to a succeeding input"""
+    key = ("fail", n)
+    if key not in ALPH_CACHE:
+        ops = [op for op in alphabet(n) if op["op"] != "edit"]
+        ops += [{"op": "edit", "keys": [k], "vals": [101 + 2 * k]} for k in range(n)]
+        ops += [{"op": "edit", "keys": [k], "vals": [100 + 2 * k]} for k in range(n)]
+        ALPH_CACHE[key] = ops
+    return ALPH_CACHE[key]
+
+
+def failing_cases(ctx, rng):
+    """queries that return a fatal error (not a panic): at the root of a Run and nested, computed / cached / evicted /
+    recomputed, flipping between failing and succeeding with their input"""
+    out = []
+    allk = lambda n: {k: FAIL_ODD for k in range(n)}
+    # corpus: two callers over a failing leaf (first Run, cached Run, Run after evicting the leaf)
+    out.append(mk_case(3, [[[2]], [[2]], []], [{"op": "run", "keys": [0, 1, 2]}, {"op": "run", "keys": [2, 1, 0]},
+                                               {"op": "evict", "keys": [2]}, {"op": "run", "keys": [2, 0]},
+                                               {"op": "run", "keys": [0, 1, 2]}], 2, fail={2: [0, 1]}))
+    # a chain whose leaf flips failing -> succeeding -> failing with its input
+    out.append(mk_case(3, [[[1]], [[2]], []], [{"op": "run", "keys": [0]}, {"op": "edit", "keys": [2], "vals": [40]},
+                                               {"op": "run", "keys": [0]}, {"op": "edit", "keys": [2], "vals": [41]},
+                                               {"op": "run", "keys": [1]}, {"op": "run", "keys": [0]}, {"op": "run", "keys": [0, 1, 2]}],
+                       1, fail={2: FAIL_ODD}))
+    # only the root of the Run fails; its dependencies succeed; two Resolve calls
+    out.append(mk_case(3, [[[1], [2]], [], []], [{"op": "run", "keys": [0]}, {"op": "run", "keys": [0]}, {"op": "evict", "keys": [1]},
+                                                 {"op": "run", "keys": [0]}, {"op": "run", "keys": [1, 0]}], 2, fail={0: [0, 1]}))
+    # overlapping Runs over a failing leaf and its failing caller
+    out.append(mk_case(2, [[[1]], []], [{"op": "par", "runs": [[0], [1]], "delays_us": [0, 0]}, {"op": "run", "keys": [0, 1]},
+                                        {"op": "evict", "keys": [1]}, {"op": "par", "runs": [[0, 1], [0, 1]], "delays_us": [0, 30]},
+                                        {"op": "run", "keys": [1, 0]}], 2, fail={1: [0, 1]}))
+    ncorp = len(out)
+    # every DAG on <= 3 keys x every non-empty set of keys that fail at first (every key fails iff its input is odd, so an Edit
+    # can flip any of them) x histories over the failing alphabet, then Run of everything
+    L = ctx.budget(2, 3)
+    idx = 0
+    for n in (1, 2, 3):
+        alph = fail_alphabet(n)
+        for deps in all_dags(n):
+            for m in range(1, 1 << n):
+                inputs = [20 * (k + 1) + (m >> k & 1) for k in range(n)]
+                for ln in range(1, L + 1):
+                    for hist in itertools.product(alph, repeat=ln):
+                        if hist[0]["op"] in ("evict", "edit"):
+                            continue
+                        if ctx.tier == "quick" and n == 3 and ln == 2 and not rng.chance(1, 8):
+                            continue     # quick: a seeded sample of one in eight of the two-operation histories on 3 keys
+                        idx += 1
+                        pars = (1 + idx % 2,) if ctx.tier == "quick" else (1, 2, 3)
+                        for par in pars:
+                            out.append(mk_case(n, deps, list(hist) + [{"op": "run", "keys": list(range(n))}], par,
+                                               inputs=inputs, fail=allk(n)))
+    return out, ncorp
+
+
+def random_fail(rng, n, p_num, p_den):
+    """a random fail spec: each key with chance p fails iff input % m == r, m in 1..3 (m = 1: always)"""
+    out = {}
+    for k in range(n):
+        if rng.chance(p_num, p_den):
+            m = rng.range(1, 4)
+            out[k] = [rng.below(m), m]
+    return out
 
 
 def run(ctx):
@@ -70,9 +141,18 @@ def run(ctx):
     # DAGs on 4 keys x a few history shapes
     for deps in all_dags(4):
         for par in (1, 3):
-            cases.append(mk_case(4, deps, [{"op": "run", "keys": [0]}, {"op": "edit", "keys": [3], "vals": [9]},
+            # the parallelism-3 copy has one query that returns a fatal error while its input is odd (all inputs are odd at
+            # first; the Edit of key 3 to 8 or 9 flips / keeps it when it is key 3)
+            fk = rng.below(4)
+            cases.append(mk_case(4, deps, [{"op": "run", "keys": [0]}, {"op": "edit", "keys": [3], "vals": [9 if par == 1 else 8 + rng.below(2)]},
                                            {"op": "par", "runs": [[0], [1]], "delays_us": [0, 0]},
-                                           {"op": "evict", "keys": [2]}, {"op": "run", "keys": [0, 1, 2, 3]}], par))
+                                           {"op": "evict", "keys": [2]}, {"op": "run", "keys": [0, 1, 2, 3]}], par,
+                                 fail={fk: FAIL_ODD} if par == 3 else None))
+    # queries that return a fatal error
+    nfail0 = len(cases)
+    fcases, nfcorp = failing_cases(ctx, rng)
+    cases += fcases
+    nfail1 = len(cases)
     # Evict / Edit issued WHILE a Run is in flight (it has to wait for the dirty lock; the input changes inside the cleanup of
     # EvictWithCleanup): a gated query of the Run is parked inside Execute, before or after the Resolve call that makes it a
     # dependent of the evicted key; afterwards everything is run again and must be fresh
@@ -99,7 +179,8 @@ def run(ctx):
                                    {"op": "run", "keys": list(range(n))}]
                             if rng.chance(1, 4):
                                 ops[1].pop("vals")
-                            cases.append(mk_case(n, deps, ops, rng.range(1, 3)))
+                            cases.append(mk_case(n, deps, ops, rng.range(1, 3),
+                                                 fail=random_fail(rng, n, 1, 2) if rng.chance(1, 3) else None))
     if PRELOCK_LOOKUP_CASES:
         # the evicted key has no task yet when EvictWithCleanup is called; the in-flight Run creates and computes it afterwards
         cases.append(mk_case(2, [[[1]], []], [{"op": "evrun", "keys": [0], "evict": [1], "vals": [2], "gate": 0, "gate_group": 0},
@@ -110,17 +191,24 @@ def run(ctx):
         n = rng.range(3, 8)
         deps = random_dag(rng, n, rng.range(15, 70))
         cases.append(mk_case(n, deps, random_history(rng, n, rng.range(2, 6)), rng.range(1, 4),
-                             inputs=[rng.below(1000) for _ in range(n)], jitter=rng.range(1, 1 << 30) if rng.chance(3, 4) else 0))
+                             inputs=[rng.below(1000) for _ in range(n)], jitter=rng.range(1, 1 << 30) if rng.chance(3, 4) else 0,
+                             fail=random_fail(rng, n, 1, 3) if rng.chance(1, 2) else None))
     ctx.rule = ("dependency DAGs of counting queries x histories of Run / two overlapping Runs / Evict / Edit(input change + Evict): "
                 "every DAG on <= 3 keys x every history of <= %d operations over the alphabet {Run k, Run all, 2 overlapping Runs, "
                 "Evict k, Edit k} x parallelism {1,2%s} followed by Run of every key; every DAG on 4 keys x one mixed history; random "
                 "DAGs on 3..8 keys with 1..3 Resolve calls per query, random histories, schedule jitter; for every dependency edge g -> k "
                 "of every DAG on <= 3 keys and of random DAGs on 3..6 keys: Run of k, then Evict/Edit of k (or of a key k needs) issued "
                 "while a Run is in flight whose query g is parked before / after the Resolve call that reaches k, then Run of every key; "
+                "queries that RETURN a fatal error (own error iff input %% m == r; dependents fail with it): every DAG on <= 3 keys x "
+                "every non-empty set of initially failing keys x every history of <= %d operations over {Run k, Run all, 2 overlapping "
+                "Runs, Evict k, Edit k to a failing input, Edit k to a succeeding input}%s followed by Run of every key, plus a failing "
+                "key in half of the 4-key, random and a third of the evict-during-run histories; "
                 "distinct = distinct "
                 "(graph, inputs, history, parallelism); non-trivial = at least one dependency edge and at least two operations; "
                 "the specification oracle runs on every history, the model (in coqc) on %s"
-                % (L, "" if ctx.tier == "quick" else ",3", "every 4th" if ctx.tier == "quick" else "every one"))
+                % (L, "" if ctx.tier == "quick" else ",3", L,
+                   " (quick: a seeded sample of 1 in 8 of the two-operation histories on 3 keys)" if ctx.tier == "quick" else "",
+                   "every 4th" if ctx.tier == "quick" else "every one"))
     import time as _t
     t0 = _t.time()
     outs = ctx.impl("incremental", cases)
@@ -128,8 +216,8 @@ def run(ctx):
     terms, meta = [], []
     stride = ctx.budget(4, 1)     # quick: the model is evaluated in coqc on the corpus and on every 4th history
     for ci, (c, o) in enumerate(zip(cases, outs)):
-        ctx.count((c["n"], c["deps"], c["inputs"], c["ops"], c["par"]), any(c["deps"]) and len(c["ops"]) >= 2,
-                  "n=%d" % c["n"])
+        ctx.count((c["n"], c["deps"], c["inputs"], c["ops"], c["par"], sorted(c.get("fail", {}).items())),
+                  any(c["deps"]) and len(c["ops"]) >= 2, "n=%d%s" % (c["n"], "+fail" if c.get("fail") else ""))
         if "crash" in o or "panic" in o:
             ctx.violation("harness-crash", "the harness process crashed", {"input": c, "observed": o})
             continue
@@ -137,7 +225,9 @@ def run(ctx):
             ctx.violation(key, what, {"input": c, "observed": o})
         if nev0 <= ci < nev1:
             ctx.hist["evict-during-run"] = ctx.hist.get("evict-during-run", 0) + 1
-        t = coq_case(c, o) if (ci < len(corpus) or ci % stride == 0 or ci == nev0) else None
+        if c.get("fail"):
+            ctx.hist["with-failing-queries"] = ctx.hist.get("with-failing-queries", 0) + 1
+        t = coq_case(c, o) if (ci < len(corpus) or ci % stride == 0 or ci == nev0 or nfail0 <= ci < nfail0 + nfcorp) else None
         if t is not None:
             terms.append(t)
             meta.append((c, o))
